@@ -18,17 +18,18 @@ def Cfg.minEff (c : Cfg) : Nat := if c.min > c.max then c.max else c.min
 
 structure St where
   tracked : List (Nat × Nat) := []   -- (address, long-term error count)
-  inflight : Nat := 0                -- forks past the gate whose SetWorker has not run yet
+  inflight : Nat := 0                -- pinned gates only (`stepPinned`): forks past the gate whose SetWorker has not run yet
   poolReady : Bool := false
   killReq : List Nat := []
 deriving Repr, DecidableEq
 
 inductive Ev
-  /-- ForkWorkerEnter / ForkingWorkerEnter -/
-  | forkGate
-  /-- SetWorkerState with a WorkerInfo (the fork registered itself) -/
+  /-- ForkWorkerEnter / ForkingWorkerEnter + ForkingWorkerState: the fork with boot address `a`
+      asks to pass; when it does it is entered in the map at once -/
+  | forkGate (a : Nat)
+  /-- an Add of SetWorker with a WorkerInfo for address `a` (SetWorkerEnter + SetWorkerState) -/
   | setWorker (a : Nat)
-  /-- a fork failed after the gate (never reaches SetWorker) -/
+  /-- pinned gates only: a fork failed after the gate (never reached SetWorker) -/
   | forkFailed
   /-- SetWorkerState without info / WorkerKilledState: the entry is deleted -/
   | delWorker (a : Nat)
@@ -51,14 +52,17 @@ deriving Repr, DecidableEq
 
 def hasW (s : St) (a : Nat) : Bool := s.tracked.any (fun w => w.1 == a)
 
+/-- a map: setting an address overwrites its entry. -/
+def setW (s : St) (a : Nat) : St := { s with tracked := (s.tracked.filter (fun w => w.1 != a)) ++ [(a, 0)] }
+
 def step (c : Cfg) (s : St) : Ev → St × Out
-  | .forkGate =>
-    if s.tracked.length < c.max then ({ s with inflight := s.inflight + 1 }, .ok) else (s, .vetoed)
+  | .forkGate a =>
+    -- fix 06f8e10: a fork that passes the gate is tracked from that moment on
+    if s.tracked.length < c.max then (setW s a, .ok) else (s, .vetoed)
   | .setWorker a =>
-    -- a map: re-setting an address overwrites its entry
-    ({ s with tracked := (s.tracked.filter (fun w => w.1 != a)) ++ [(a, 0)],
-              inflight := s.inflight - 1 }, .ok)
-  | .forkFailed => ({ s with inflight := s.inflight - 1 }, .ok)
+    -- fix 06f8e10: SetWorkerEnter lets an entry in when the address is tracked already or there is room
+    if hasW s a || s.tracked.length < c.max then (setW s a, .ok) else (s, .vetoed)
+  | .forkFailed => (s, .ok)
   | .delWorker a => ({ s with tracked := s.tracked.filter (fun w => w.1 != a) }, .ok)
   | .workerForked a b =>
     match s.tracked.find? (fun w => w.1 == a) with
@@ -78,6 +82,17 @@ def step (c : Cfg) (s : St) : Ev → St × Out
     else if ready < c.minEff then ({ s with poolReady := false }, .ok) else (s, .vetoed)
 
 def run (c : Cfg) (s : St) (evs : List Ev) : St := evs.foldl (fun s e => (step c s e).1) s
+
+/-- the gates of the pinned commit (before fix 06f8e10): they look at the map only, and a fork
+    enters the map with SetWorker, which nothing gates. Every other event as in `step`. -/
+def stepPinned (c : Cfg) (s : St) : Ev → St × Out
+  | .forkGate _ =>
+    if s.tracked.length < c.max then ({ s with inflight := s.inflight + 1 }, .ok) else (s, .vetoed)
+  | .setWorker a => ({ setW s a with inflight := s.inflight - 1 }, .ok)
+  | .forkFailed => ({ s with inflight := s.inflight - 1 }, .ok)
+  | e => step c s e
+
+def runPinned (c : Cfg) (s : St) (evs : List Ev) : St := evs.foldl (fun s e => (stepPinned c s e).1) s
 
 /-- forks a normalizing round asks for: up to `min()+Warm`, never beyond `Max`. -/
 def forksWanted (c : Cfg) (tracked : Nat) : Nat := (Nat.min (c.minEff + c.warm) c.max) - tracked
